@@ -39,6 +39,8 @@ class Ctx:
         self.digest = None
         self.inconclusive = []
         self.selftest = None
+        self.inline_set = ()      # helpers inlined in this run's view of the program (rules/inline.py)
+        self.fact_paths = {}
 
     # ---- facts
     def facts(self, cfg, crate="jsonlogic_rs", profile="debug"):
@@ -51,7 +53,12 @@ class Ctx:
             self.digest = digest
             if crate not in files:
                 raise Inconclusive("no fact file for crate %s in config %s" % (crate, cfg))
-            self._facts[k] = Facts(files[crate])
+            self.fact_paths[k] = files[crate]
+            if self.inline_set:
+                from . import inline
+                self._facts[k] = inline.load_view(files[crate], [h for h in self.inline_set if h.startswith(crate + "::")])
+            else:
+                self._facts[k] = Facts(files[crate])
             tag = "%s/%s/%s" % (cfg, profile, crate)
             if tag not in self.configs:
                 self.configs.append(tag)
@@ -174,16 +181,107 @@ class Ctx:
         return 0
 
 
-def run_check(prop, tier, fn, level="other"):
+def _attempt(prop, tier, fn, level, inline_set=()):
+    from . import prov
+    prov._CALLABLE_CACHE.clear()
+    prov._INDEX_CACHE.clear()
     ctx = Ctx(prop, tier, level)
+    ctx.inline_set = tuple(sorted(inline_set))
+    ok = False
     try:
         fn(ctx)
+        ok = True
     except Inconclusive as e:
         ctx.inconclusive.append(str(e))
     except Exception as e:  # an idiom the rule cannot read must never look like a verdict
         import traceback
         tb = traceback.format_exc().strip().splitlines()
         ctx.inconclusive.append("internal error while reading the code (%s: %s) at %s" % (type(e).__name__, e, tb[-3].strip() if len(tb) >= 3 else ""))
+    return ctx, ok
+
+
+def _score(ctx):
+    return len({v["key"] for v in ctx.viol}) + (50 if ctx.inconclusive else 0)
+
+
+def _helper_views(prop, tier, fn, level, ctx0):
+    """The rule did not pass on the program as written.  Inlining a private helper function at its call sites
+    is behaviour-preserving, and a rule that holds on a behaviourally identical program holds for the property:
+    search (greedily, most relevant helpers first, bounded) for a set of helpers whose inlining lets every clause
+    be discharged.  Returns the passing Ctx or None."""
+    from . import inline
+    budget = float(os.environ.get("JL_INLINE_BUDGET", "240"))
+    t0 = time.time()
+    cands = set()
+    for path in set(ctx0.fact_paths.values()):
+        try:
+            cands |= set(inline.candidates(path))
+        except Exception:
+            pass
+    if not cands:
+        return None
+    text = " ".join("%s %s %s %s" % (v["key"], v["detail"], v.get("function") or "", " ".join(v.get("path") or [])) for v in ctx0.viol) + " " + " ".join(ctx0.inconclusive)
+
+    def short(k):
+        return k.split("::", 1)[1] if "::" in k else k
+    hot_fns = {v.get("function") for v in ctx0.viol if v.get("function")}
+    rel = [k for k in sorted(cands) if short(k) in text or k in text or k in hot_fns]
+    # helpers called from the functions the violations sit in
+    try:
+        for f in ctx0._facts.values():
+            cg, _ = f.callgraph()
+            for hf in hot_fns:
+                for c in cg.get(hf, ()):
+                    if c in cands and c not in rel:
+                        rel.append(c)
+            for k in sorted(cands):      # helpers that call a function named in the report
+                if k not in rel and any(c in hot_fns or short(c) in text for c in cg.get(k, ())):
+                    rel.append(k)
+    except Exception:
+        pass
+    rest = [k for k in sorted(cands) if k not in rel]
+    order = rel + rest
+    cur, cur_score = set(), _score(ctx0)
+    tried = set()
+    improved = True
+    while improved and time.time() - t0 < budget:
+        improved = False
+        best = None
+        for h in order:
+            if h in cur or time.time() - t0 > budget:
+                continue
+            trial = frozenset(cur | {h})
+            if trial in tried:
+                continue
+            tried.add(trial)
+            c, ok = _attempt(prop, tier, fn, level, trial)
+            sc = _score(c)
+            if os.environ.get("JL_INLINE_DEBUG"):
+                print("  [inline] try +%s -> score %d %s" % (short(h), sc, (c.inconclusive or [""])[0][:150]))
+            if ok and sc == 0:
+                return c
+            if sc < cur_score and (best is None or sc < best[0]):
+                best = (sc, h)
+                if h in rel:
+                    break          # take the first improving relevant helper at once
+        if best:
+            cur.add(best[1])
+            cur_score = best[0]
+            improved = True
+    return None
+
+
+def run_check(prop, tier, fn, level="other"):
+    forced = [h for h in os.environ.get("JL_INLINE_SET", "").split(",") if h]     # development aid
+    ctx, ok = _attempt(prop, tier, fn, level, forced)
+    if (ctx.viol or ctx.inconclusive) and os.environ.get("JL_NO_INLINE") != "1":
+        alt = _helper_views(prop, tier, fn, level, ctx)
+        if alt is not None:
+            alt.notes.append("decided on a behaviour-preserving view of the program: private helper functions inlined at their call sites: %s (the program as written left %d clause instance(s) undecided)" % (", ".join(alt.inline_set), _score(ctx)))
+            alt.t0 = ctx.t0
+            ctx, ok = alt, True
+    if not ok:
+        pass
     else:
         if tier == "thorough" and not ctx.viol and not ctx.inconclusive:
             try:
